@@ -304,6 +304,8 @@ def assert_pure(run, model, rule="C15.assert-pure"):
             if isinstance(node, ast.Assert):
                 n += 1
                 bad = None
+                if isinstance(node.test, ast.Constant) and not node.test.value:
+                    bad = "`assert %s` is a raise in disguise: the rejection it stands for happens in a normal interpreter and vanishes under -O, so an enabled contract behaves differently in the two modes" % src_of(node.test)
                 for sub in ast.walk(node.test):
                     if isinstance(sub, (ast.NamedExpr, ast.Await, ast.Yield, ast.YieldFrom)):
                         bad = "the assert test binds a name / suspends: %s" % first_line(sub)
@@ -325,8 +327,10 @@ def run(run, model):
     run.do(defaults, model)
     run.do(slow, model)
     run.do(debug_only_there, model)
-    from . import c08
+    from . import c08, inv
     run.do(c08.define_tables, model, "C15.decoration-time-rejection")
+    # rejections are raised, in both interpreter modes (the 8-row table of the invariant evaluation)
+    run.do(inv.self_rule, model, "C15.rejection-raised")
     n = assert_pure(run, model)
     if n < 40:
         raise AnalysisError("only %d assert statements found (60+ confirmed by hand)" % n)
